@@ -753,6 +753,14 @@ def _h_mod(a: Any, b: Any) -> Any:
         return sym_format(a, b)
     if isinstance(a, _SymSeq):
         return sym_format(a, b)
+    if type(a) is _real_bytes:
+        try:
+            return a % b
+        except TypeError as exc:
+            if 'returned non-bytes' in str(exc):
+                # an argument's __bytes__ produced symbolic bytes
+                return sym_format(a, b)
+            raise
     return a % b
 
 
